@@ -47,6 +47,42 @@ fn apply_split_ratio_effect(cumulative_ratio_effect: &mut Decimal, tx: &GbpTrans
     }
 }
 
+/// Shares of `sell_tx`'s ticker that earlier disposals have already matched to
+/// acquisitions dated after `sell_tx`, expressed in share units current at `sell_tx`.
+///
+/// A 30-day match leaves the Section 104 pool untouched, so these shares still sit in
+/// the pool although they have been sold; the holding check must not count them.
+pub(super) fn shares_matched_to_later_acquisitions(
+    sell_tx: &GbpTransaction,
+    sell_idx: usize,
+    all_transactions: &[GbpTransaction],
+    future_consumption: &HashMap<usize, Decimal>,
+) -> Decimal {
+    let mut total = Decimal::ZERO;
+    let mut cumulative_ratio_effect = Decimal::ONE;
+
+    for (idx, tx) in all_transactions.iter().enumerate().skip(sell_idx + 1) {
+        if tx.ticker != sell_tx.ticker || tx.date <= sell_tx.date {
+            continue;
+        }
+        match &tx.operation {
+            Operation::Split { .. } | Operation::Unsplit { .. } => {
+                apply_split_ratio_effect(&mut cumulative_ratio_effect, tx);
+            }
+            Operation::Buy { .. } => {
+                if let Some(claimed) = future_consumption.get(&idx)
+                    && cumulative_ratio_effect != Decimal::ZERO
+                {
+                    total += *claimed / cumulative_ratio_effect;
+                }
+            }
+            _ => {}
+        }
+    }
+
+    total
+}
+
 fn available_for_bnb_after_reservations(
     idx: usize,
     tx: &GbpTransaction,
